@@ -1,6 +1,7 @@
 ---------------------------- MODULE LBClientGen ----------------------------
 (* Behaviour generator (B1) for LBClient: SEQUENTIAL histories (one caller, membership       *)
-(* changes only between calls, no timer fires) with, for every call, the snapshot get reads, *)
+(* changes before the first call - i.e. before the lazy init - and between calls, no timer  *)
+(* fires) with, for every call, the snapshot get reads, *)
 (* the set of clients the specification allows it to choose and the one this behaviour       *)
 (* chose.  Replayed on a real LBClient over fake BalancingClients.                           *)
 EXTENDS LBClient, Json
@@ -23,7 +24,7 @@ AllowedNow == { snap[1][i].c : i \in Minimal(snap[1]) }
 
 GInit == Init /\ hist = << >>
 GNext ==
-  \/ GetBegin(1) /\ hist' = (IF members = << >> THEN Append(hist, Rec("call", 0, {}, {}, FALSE, << >>)) ELSE hist)
+  \/ GetBegin(1) /\ hist' = (IF CurMembers = << >> THEN Append(hist, Rec("call", 0, {}, {}, FALSE, << >>)) ELSE hist)
   \/ Choose(1) /\ chosen'[1] = FirstMin /\ UNCHANGED hist      \* the tie-break of the code (first minimal member);
                                                                \* the harness still accepts every member of `allowed`
   \/ (ReadLoad(1) \/ CallStart(1) \/ Succeed(1) \/ IncPenalty(1) \/ Undo(1) \/ UndoTotal(1)) /\ UNCHANGED hist
